@@ -77,6 +77,12 @@ const digits = "0123456789"
 
 func (g *gen) property(p string) bool {
 	switch p {
+	case "C01":
+		g.genQR()
+	case "C02":
+		g.genDM()
+	case "C04":
+		g.genPDF()
 	case "C05":
 		g.genC128()
 	case "C06":
